@@ -1,6 +1,7 @@
 """C06 -- register replicas converge and accept only authorised writes
 (ant-registers/src/{register,reg_crdt,register_op,permissions}.rs over crdts::MerkleReg)."""
 import itertools
+import json
 from vpc.core import cN, clist
 
 IMPORTS = "Require Import V.model.MerkleReg V.model.Register."
@@ -23,7 +24,12 @@ RULE = ("a case is a whole history over real BLS keys: (accept) one replica, eve
         "one pool of causally chained/concurrent operations in different orders with duplication and partitions healed "
         "by merge/verified_merge; (laws) commutativity/associativity/idempotence squares and different-base merges; "
         "(exhaustive) every delivery order of <=4 (quick) / <=5 (thorough) operations; (limit) 1023/1024/1025 entries "
-        "by add_op and by merging across the limit; (crdt/crdt_exh) RegisterCrdt.apply_op/merge with random DAGs, "
+        "by add_op and by merging across the limit; (tamper) every genuine signed operation re-offered with one or two of "
+        "{children, value, address, source} altered and the signature kept; (samevalue) distinct operations carrying the SAME "
+        "entry value -- written from scratch, on top of an earlier entry, re-written after an intermediate value (A->B->A), "
+        "joined, by a second writer -- in every delivery order through RegisterCrdt.apply_op/merge and through add_op + the "
+        "client rebuild after every update; (crdt/crdt_exh) RegisterCrdt.apply_op/merge with random DAGs (40% over a 3-value "
+        "alphabet), "
         "dangling children, orphans resolved recursively, every permutation of <=5 nodes, full dag/orphan/read dump "
         "after every step.  distinct/non-trivial = (family, multiset of result codes, #replicas, max set size class, "
         "had orphans, read width)")
@@ -97,9 +103,16 @@ def rand_val(rng, big=False):
     return [rng.randrange(256) for _ in range(rng.choice([0, 1, 1, 2, 3]))]
 
 
-def rand_dag(b, rng, n, dangling=0.0, width=2):
-    """n nodes; children are earlier nodes (chains, forks, joins), sometimes a hash nobody has."""
+def rand_dag(b, rng, n, dangling=0.0, width=2, alphabet=None):
+    """n nodes; children are earlier nodes (chains, forks, joins), sometimes a hash nobody has.
+    With `alphabet` the entry values are drawn from that small set, so distinct nodes (different
+    children) carry the same value: concurrent writes of one value, A -> B -> A rewrites."""
     ids = []
+    seen = set()
+
+    def key(ch, val):
+        return (tuple(sorted(json.dumps(x, sort_keys=True) for x in ch)), tuple(val))
+
     for k in range(n):
         ch = []
         if ids and rng.random() < 0.75:
@@ -107,8 +120,39 @@ def rand_dag(b, rng, n, dangling=0.0, width=2):
                 ch.append({"n": j})
         if rng.random() < dangling:
             ch.append({"x": rng.randrange(1, 4)})
-        ids.append(b.node(ch, rand_val(rng) + [k]))
+        if alphabet is None:
+            ids.append(b.node(ch, rand_val(rng) + [k]))
+            continue
+        val = list(rng.choice(alphabet))
+        if key(ch, val) in seen:           # keep the pool's nodes pairwise distinct
+            ch = ch + [{"x": 10 + k}]
+        seen.add(key(ch, val))
+        ids.append(b.node(ch, val))
     return ids
+
+
+SMALL = [[7], [7], [8], [9]]
+
+
+def same_value_dag(b, rng, k):
+    """k distinct nodes around one repeated value v: written from scratch, on top of an earlier entry p,
+    re-written after an intermediate value (v -> w -> v), joined; by construction all different hashes"""
+    v, w, pv = [7], [8], [5]
+    p = b.node([], pv)
+    a1 = b.node([], v)                       # v from scratch
+    a2 = b.node([{"n": p}], v)               # v on top of p (concurrent with a1)
+    m = b.node([{"n": a1}], w)               # v -> w
+    a3 = b.node([{"n": m}], v)               # ... -> v again
+    j = b.node([{"n": a2}, {"n": a3}], v)    # join of the two v heads, again v
+    a4 = b.node([{"n": p}, {"n": a1}], v)    # v over both roots
+    o1 = b.node([{"x": 3}], v)               # v over a parent nobody delivers (stays an orphan)
+    shapes = [[a1, a2, p], [a1, m, a3], [p, a1, a2, a4], [a1, m, a3, a2], [p, a2, a1, m, a3],
+              [a1, a2, p, j], [a1, m, a3, j, a2], [p, a1, a4, o1], [a1, m, a3, p, a2, j]]
+    cands = [x for x in shapes if len(x) <= k] or [shapes[0]]
+    pick = list(rng.choice(cands))
+    rest = [x for x in (p, a1, a2, m, a3, j, a4, o1) if x not in pick]
+    rng.shuffle(rest)
+    return (pick + rest)[:k]
 
 
 def rand_perms(rng):
@@ -185,7 +229,7 @@ def gen_converge(rng, nrep=None, nops=None):
     meta, owner = 1, 0
     addr = (meta, owner)
     r = b.reg(meta, owner, rand_perms(rng))
-    nodes = rand_dag(b, rng, rng.randrange(3, 9), dangling=0.1)
+    nodes = rand_dag(b, rng, rng.randrange(3, 9), dangling=0.1, alphabet=SMALL if rng.random() < 0.4 else None)
     ops = op_flavours(b, rng, addr, [(2, 0), (1, 1)], nodes, nops or rng.randrange(4, 12))
     nrep = nrep or rng.choice([2, 3, 4])
     reps = [b.replica(r) for _ in range(nrep)]
@@ -347,7 +391,7 @@ def gen_exhaustive(rng, k):
     meta, owner = 1, 0
     addr = (meta, owner)
     r = b.reg(meta, owner, rng.choice([None, [1], [1, 2]]))
-    nodes = rand_dag(b, rng, k, dangling=0.1)
+    nodes = rand_dag(b, rng, k, dangling=0.1, alphabet=SMALL if rng.random() < 0.4 else None)
     ops = op_flavours(b, rng, addr, [(2, 0)], nodes, k)
     reps = []
     for perm in itertools.permutations(ops):
@@ -363,6 +407,61 @@ def gen_exhaustive(rng, k):
     for i in reps:
         b.step("dump", i)
     for i in reps[:2] + reps[-1:]:
+        b.step("verify", i)
+        b.step("client", i)
+    return b.c
+
+
+def gen_samevalue(rng, k, mode):
+    """distinct operations carrying the SAME entry value (same value under different parents, by different
+    writers, re-written after an intermediate value), every delivery order: through RegisterCrdt::apply_op
+    (mode crdt) and through SignedRegister::add_op followed by the client's rebuild (mode hist).  Replicas
+    holding the same operations must present the same read(), and read() must be the heads of the DAG."""
+    addr = (1, 0)
+    if mode == "crdt":
+        b = B("samevalue_crdt", mode="crdt")
+        nodes = same_value_dag(b, rng, k) if rng.random() < 0.7 else rand_dag(b, rng, k, dangling=0.1, width=3, alphabet=SMALL)
+        ops = [b.op(addr, nd, rng.choice([0, 1])) for nd in nodes]
+        if rng.random() < 0.5 and k < 5:     # the same node written by a second writer: another op, same node
+            ops.append(b.op(addr, rng.choice(nodes), 3))
+        reps = []
+        for perm in itertools.permutations(ops):
+            i = len(b.c["crdts"])
+            b.c["crdts"].append(list(addr))
+            reps.append(i)
+            for o in perm:
+                b.step("apply", i, o)
+        # and two replicas that each saw a part and then merged
+        x, y = len(b.c["crdts"]), len(b.c["crdts"]) + 1
+        b.c["crdts"] += [list(addr), list(addr)]
+        cut = rng.randrange(1, len(ops))
+        for o in ops[:cut]:
+            b.step("apply", x, o)
+        for o in reversed(ops[cut:]):
+            b.step("apply", y, o)
+        b.step("cmerge", x, y)
+        b.step("cmerge", y, x)
+        b.check("cconverged", reps + [x, y])
+        return b.c
+    b = B("samevalue_hist")
+    r = b.reg(1, 0, rng.choice([None, [1], [1, 2]]))
+    nodes = same_value_dag(b, rng, k) if rng.random() < 0.7 else rand_dag(b, rng, k, dangling=0.1, width=3, alphabet=SMALL)
+    ops = [b.op(addr, nd, rng.choice([0, 1])) for nd in nodes]
+    reps = []
+    for perm in itertools.permutations(ops):
+        i = b.replica(r)
+        reps.append(i)
+        for o in perm:
+            b.step("add", i, o)
+    # growing prefixes: the client's view after every update of one replica (A, then A->B, then A->B->A ...)
+    g = b.replica(r)
+    for o in ops:
+        b.step("add", g, o)
+        b.step("verify", g)
+        b.step("client", g)
+    b.check("converged", reps)
+    for i in reps:
+        b.step("dump", i)
         b.step("verify", i)
         b.step("client", i)
     return b.c
@@ -431,10 +530,11 @@ def gen_limit(rng, variant):
 def gen_crdt(rng, exhaustive_k=None):
     b = B("crdt_exh" if exhaustive_k else "crdt", mode="crdt")
     addr = (1, 0)
+    alpha = SMALL if rng.random() < 0.4 else None      # repeated entry values across distinct nodes
     if exhaustive_k:
-        nodes = rand_dag(b, rng, exhaustive_k, dangling=0.12, width=3)
+        nodes = rand_dag(b, rng, exhaustive_k, dangling=0.12, width=3, alphabet=alpha)
     else:
-        nodes = rand_dag(b, rng, rng.randrange(3, 12), dangling=0.12, width=3)
+        nodes = rand_dag(b, rng, rng.randrange(3, 12), dangling=0.12, width=3, alphabet=alpha)
     ops = [b.op(addr, nd, rng.choice([0, 1, 3]), rng.choice([None, None, {"junk": 0}])) for nd in nodes]
     foreign = [b.op((2, 0), nodes[0], 0), b.op((1, 1), nodes[-1], 1), b.op((1, 3), nodes[0], 3, {"junk": 1})]
     reps = []
@@ -494,6 +594,16 @@ def gen(ctx):
             cases.append(gen_exhaustive(rng, 5))
     for v in (["add", "merge"] if quick else ["add", "writers", "merge", "order", "add"]):
         cases.append(gen_limit(rng, v))
+    for _ in range(8 if quick else 40):              # 8 x 24(+) orders quick; thorough adds all orders of 5
+        cases.append(gen_samevalue(rng, 4, "crdt"))
+    for _ in range(6 if quick else 40):
+        cases.append(gen_samevalue(rng, 3, "crdt"))
+    for _ in range(1 if quick else 12):
+        cases.append(gen_samevalue(rng, 5, "crdt"))
+    for _ in range(4 if quick else 30):
+        cases.append(gen_samevalue(rng, 3, "hist"))
+    for _ in range(2 if quick else 20):
+        cases.append(gen_samevalue(rng, 4, "hist"))
     for _ in range(80 if quick else 1200):
         cases.append(gen_crdt(rng))
     for _ in range(4 if quick else 30):
@@ -620,8 +730,9 @@ def oracle(c, o):
             dag, heads = lfp_read(nodes)
             if sorted(dag) != r["dag"] or sorted(set(nodes) - dag) != r["orph"] or heads != [x[0] for x in r["read"]]:
                 v.append(("crdt-state-wrong", "after %s: dag/orphans/read are not the ancestor-closed part of the delivered "
-                          "nodes, the rest, and its heads: dag=%d orph=%d read=%s expected dag=%d read=%s"
-                          % (s, len(r["dag"]), len(r["orph"]), [x[0][:8] for x in r["read"]], len(dag), [h[:8] for h in heads])))
+                          "nodes, the rest, and its heads: dag=%d orph=%d read=%s expected dag=%d orph=%d read=%s"
+                          % (s, len(r["dag"]), len(r["orph"]), [x[0][:8] for x in r["read"]], len(dag),
+                             len(set(nodes) - dag), [h[:8] for h in heads])))
             vals = {nh[j][0]: c["nodes"][j]["val"] for j in got[i]}
             for h, val in r["read"]:
                 want = vals.get(h)
